@@ -459,6 +459,10 @@ func (e *Engine) verifyFunction(key string) (*FuncResult, error) {
 		var rv []Val
 		rv = append(rv, r.vals...)
 		pc := x.newCtx(r.st, entry, con.Pkg, r.guard, body)
+		// local names that dominate the return are visible in ensures clauses (values at the return); parameters
+		// and results, bound last, keep precedence
+		x.bindFrameNames(body, r.instr.Block(), pc)
+		x.bindBlockNames(body, r.instr.Block(), pc)
 		x.bindTop(pc, rv)
 		for k, cl := range con.Ensures {
 			pc.pol = 1
@@ -496,7 +500,15 @@ func (e *Engine) verifyFunction(key string) (*FuncResult, error) {
 	for _, o := range x.obls {
 		skipped := false
 		for _, sk := range con.Skips {
-			if strings.Contains(o.Name, sk.Pattern) || strings.Contains(o.Text, sk.Pattern) {
+			// "=name": exactly the obligation <function>/<name> (never keyed by source line: harmless edits move lines)
+			if strings.HasPrefix(sk.Pattern, "=") {
+				if o.Name != key+"/"+sk.Pattern[1:] {
+					continue
+				}
+			} else if !(strings.Contains(o.Name, sk.Pattern) || strings.Contains(o.Text, sk.Pattern)) {
+				continue
+			}
+			{
 				res.Skipped = append(res.Skipped, fmt.Sprintf("%s (%s): not claimed because %s", o.Name, o.Text, sk.Reason))
 				skipped = true
 				break
@@ -614,6 +626,7 @@ func (x *Exec) frameFormula(n, cur string, entry *State) string {
 		return ""
 	}
 	var exc []string
+	var windows []modLoc
 	for _, m := range x.topMods {
 		if m.heap == "*" {
 			return ""
@@ -628,6 +641,9 @@ func (x *Exec) frameFormula(n, cur string, entry *State) string {
 			return ""
 		}
 		exc = append(exc, sx("=", "p$f", m.ref))
+		if m.lo != "" {
+			windows = append(windows, m)
+		}
 	}
 	srt, ok := x.eng.heapSorts[n]
 	if !ok {
@@ -643,12 +659,27 @@ func (x *Exec) frameFormula(n, cur string, entry *State) string {
 	}
 	cond := sx("and", sx("<=", "p$f", entry.alc), not(or(exc...)))
 	if strings.HasPrefix(n, "E$") || strings.HasPrefix(n, "M$") {
-		cond = sx("and", sx("<=", "p$f", entry.alc), sx(">=", "p$f", "0"), not(or(exc...)))
+		nonneg := sx(">=", "p$f", "0")
+		if x.declared["rawmem"] {
+			nonneg = sx("or", nonneg, sx("=", "p$f", "rawmem")) // raw memory is framed like any other array
+		}
+		cond = sx("and", sx("<=", "p$f", entry.alc), nonneg, not(or(exc...)))
 	} else {
 		x.declRoot()
 		cond = sx("and", sx("<=", sx("root", "p$f"), entry.alc), not(or(exc...)))
 	}
-	return fmt.Sprintf("(forall ((p$f Int)) (! (=> %s (= (select %s p$f) (select %s p$f))) :pattern ((select %s p$f))))", cond, cur, init, cur)
+	f := fmt.Sprintf("(forall ((p$f Int)) (! (=> %s (= (select %s p$f) (select %s p$f))) :pattern ((select %s p$f))))", cond, cur, init, cur)
+	// windowed rows: outside every window listed for the row nothing changes
+	for _, w := range windows {
+		var outside []string
+		for _, w2 := range windows {
+			if w2.ref == w.ref || true {
+				outside = append(outside, sx("or", not(sx("=", w2.ref, w.ref)), not(sx("and", sx("<=", w2.lo, "i$f"), sx("<", "i$f", w2.hi)))))
+			}
+		}
+		f = sx("and", f, fmt.Sprintf("(forall ((i$f Int)) (! (=> %s (= (select (select %s %s) i$f) (select (select %s %s) i$f))) :pattern ((select (select %s %s) i$f))))", and(outside...), cur, w.ref, init, w.ref, cur, w.ref))
+	}
+	return f
 }
 
 // root(p): the allocated object an address belongs to (p itself for plain references)
